@@ -43,6 +43,7 @@ REGISTRY = {
     "C20": ("vsim.engines.mdsim", "exploration", 800, 20000, 90, 900),
     "C15": ("vsim.engines.evsim15", "exploration", 1500, 30000, 90, 900),
     "C16": ("vsim.engines.evsim16", "exploration", 3000, 100000, 90, 900),
+    "C17": ("vsim.engines.evsim17", "fault_enumeration", 400, 8000, 100, 900),
 }
 
 _RF = ("one run = one seeded history: channel configuration (type cell x rate x cadences x mode, start snapped to a "
@@ -54,6 +55,12 @@ _MD = ("one run = one seeded call-level history on one tree: ascending metadata 
        "writer reopen, reader construction, queries on old and new readers, clock jumps; distinct = distinct trace "
        "digests; non-trivial: >= 3 samples in >= 2 files; ")
 RULES = {
+    "C17": "one run = method (run index mod 3: move/copy/link) x 1-2 channels of real RF (+metadata) recordings growing over "
+           "2-4 rounds x event history derived from the model of the recording with duplication (20%), delay to later rounds "
+           "(10%), local reordering, stale very-late duplicates, seeded handler order per event, optional EXDEV on "
+           "source->destination rename/link, optional replay of existing files; EVERY FS-op boundary of the mirror phases is "
+           "a crash state for the no-loss and staged-publication invariants; evaluations = boundaries evaluated; non-trivial: "
+           ">= 2 RF files mirrored; distinct = distinct trace digests",
     "C16": "one run = one limit combination (run index mod 7 over size/count/duration) x 1-3 channels x {RF, metadata} x a "
            "seeded world script of 10-40 (quick) / 10-120 file actions whose events pass a faulty channel (12% dropped, 15% "
            "duplicated, 30% delayed by 1-5 steps = reordered / stale) with re-scans, verify passes, direct batches and noise "
